@@ -22,7 +22,7 @@ import (
 // overwrite the evidence of the real tree.
 var repoDir = envOr("GOVC_REPO", "/repo")
 
-const verifDir = "/verif"
+var verifDir = envOr("GOVC_VERIF", "/verif")
 
 var outDir = envOr("GOVC_OUT", verifDir)
 
